@@ -1436,7 +1436,11 @@ func (u *Unit) callAssertions(st *State, fr *Frame, site ssa.Instruction, desigs
 		u.assertCallSeen[i] = true
 		env := u.entryEnv(top, top.Entry)
 		env.st = st
-		env.fr = fr
+		// the clause was written for the unit's own function: its identifiers are
+		// resolved in the nearest enclosing frame that lexically belongs to it (the
+		// function itself or a literal nested in it), not in the frame of a helper
+		// without contract that is being executed in place
+		env.fr = lexicalFrame(fr, top)
 		env.key = fmt.Sprintf("%s.ac%d", u.Name, i)
 		if fr == top {
 			for n, v := range env.vars {
@@ -2108,3 +2112,16 @@ func (u *Unit) missingCallIsViolation(err error) bool {
 }
 
 func shortDesig(d string) string { return d }
+
+// lexicalFrame returns the innermost frame at or above fr whose function is
+// top's function or a function literal nested in it.
+func lexicalFrame(fr, top *Frame) *Frame {
+	for f := fr; f != nil; f = f.Parent {
+		for g := f.Fn; g != nil; g = g.Parent() {
+			if g == top.Fn {
+				return f
+			}
+		}
+	}
+	return top
+}
